@@ -300,12 +300,13 @@ def check_property(spec: PropertySpec, tier="quick", seed=0, src_root="/repo/src
     samples = [dict(obligation=o.name, kind=o.kind, clause=o.text, line=o.lineno, solver=o.result.solver,
                     time_s=round(o.result.time_s, 3), smt_bytes=getattr(o, "smt_size", None))
                for o in (discharged[:: max(1, len(discharged) // 6)] if discharged else [])][:8]
-    assumed = [t for t, c in E.registry.contracts.items() if c.trusted and (set(c.props) & {spec.pid} or t in spec.targets)]
+    assumed = [t for t, c in E.registry.contracts.items() if c.trusted and (t in spec.targets or t in E.used_assumed)]
     trusted = [
         "pyvc: this repository's Python-AST -> SMT-LIB verification-condition generator (encoding of the Python subset, DESIGN.md 3.2)",
         "z3 5.1.0 (z3-new) and cvc5 1.0.3 are sound for 'unsat'",
         "Python integers are mathematical (exact)",
-    ] + [f"assumed contract: {t} ({E.registry.contracts[t].note})" for t in assumed]
+    ] + [f"assumed contract: {t} ({E.registry.contracts[t].note})" + (f" - relied on by {', '.join(sorted(x.split(':')[-1] for x in E.used_assumed.get(t, [])))}" if E.used_assumed.get(t) else "") for t in assumed]
+    trusted += [f"axiom: {a}" for a in E.assumptions if a.startswith("axiom ") and any(k in a for k in ("tree/", "ete3/", "tag/"))][:40]
     level = spec.level
     coverage = dict(
         obligations=len(proof_obs), discharged=len(discharged),
